@@ -106,7 +106,7 @@ class Work:
         return ov
 
     def build(self, pkg, name, race=True):
-        out = self.path(name)
+        out = self.path(name + ("-race" if race else ""))
         cmd = ["go", "build", "-overlay", self.overlay()]
         if race:
             # no inlining: race reports name the function that really contains the access
@@ -494,7 +494,23 @@ PROPS = {
                 assumptions=["the race detector only sees the program's own happens-before edges (gates are raw syscalls, no inlining so reports name the accessing function)",
                              "interleavings are explored at scheduling points only; what happens between two points is covered by the race detector, not by schedule search",
                              "sync.Pool inside chi/net/http/fmt keeps its per-P behaviour (no overlay): it can add happens-before edges and so hide, never invent, a race"]),
+    "C02": dict(engine="gen", race=False, quick_designs=24, thorough_designs=48, quick_runs=3000, thorough_runs=120000, quick_budget=120, thorough_budget=2400, thorough_batches=8,
+                level="exploration",
+                rule="one batch = N seeded design specs (1-3 services x 1-4 methods; payload attributes of every primitive kind, arrays, maps, inline objects, named types, aliases, "
+                     "required/default, every validation keyword, mapped to path/query/header/cookie/body) fed to goa through its public DSL, generated, compiled and linked into one binary; "
+                     "one run = 6 (quick) / 20 (thorough) exchanges generated-client -> SimNet -> generated-server -> recording stub on a drawn design/method with a drawn valid payload "
+                     "(boundary classes per location), SimNet chunking/framing/header noise always, one run in three with cut/flip/dup/drop faults; oracles: stub invoked once with "
+                     "Expected(payload) (defaults filled), wire placement per location, relaxed fault oracle; distinct = (design, method, mode, fault multiset) tuples",
+                assumptions=["the reference model is computed from the design spec, never from goa's expression model or templates",
+                             "values a location cannot carry by HTTP's own rules are not generated there (CR/LF/NUL, surrounding blanks in headers, non cookie-octets in cookies, empty path segments)",
+                             "for a defaulted attribute held in a non-pointer Go field the sender cannot express 'unset'; such attributes are always sent with a non-zero value",
+                             "absent and empty collections compare equal", "designs goa rejects or that fail to compile are dropped and counted (C01/C12 territory)"]),
 }
+for _pid, _what in (("C03", "a drawn valid RESULT returned by the stub; oracles: client returns Expected(result) (defaults filled), designed status code, response placement (header/cookie/body), relaxed fault oracle"),
+                    ("C04", "values on both sides of every validation boundary (one constraint instance broken per exchange: required, enum, format, pattern, min/max incl. exclusive, lengths in runes vs bytes, at every nesting depth, in every location) and invalid RESULTS; oracles: stub invoked iff the model says the request is valid; 4xx with the documented error name for the broken rule; whatever reaches the stub satisfies the design (also under cut/flip/dup faults); the client refuses results that violate the result's constraints"),
+                    ("C05", "the stub returns declared errors (Make<Name>), wrapped declared errors, undeclared service errors with every flag combination, plain Go errors; oracles: designed status, same name/id/message/flags at the client, documented default mapping for undeclared errors, exactly one WriteHeader, body parses under its Content-Type, no handler gives up on its response")):
+    PROPS[_pid] = dict(PROPS["C02"])
+    PROPS[_pid]["rule"] = PROPS["C02"]["rule"].split("one run =")[0] + "one run = 6 (quick) / 20 (thorough) exchanges generated-client -> SimNet -> generated-server -> scripted stub with " + _what + "; distinct = (design, method, mode, fault multiset) tuples"
 
 
 def seeds_per_hour(n, wall):
@@ -545,6 +561,8 @@ def replay(path):
     rf = json.load(open(path))
     prop = rf["property"]
     cfg = PROPS[prop]
+    if cfg["engine"] != "rt":
+        return __import__("orch_" + cfg["engine"]).replay(rf, path)
     work = Work()
     work.prepare()
     binary = work.build(cfg["pkg"], cfg["engine"], race=cfg["race"])
